@@ -5,9 +5,9 @@ Model/LinkedList.lean) interpret the same op language (`al …` / `ll …`, desc
 The direct oracle below does not use the Lean model: it replays the case on a Python reference
 (list of byte strings with `None` for unspecified gap elements; list of node names) and checks the
 implementation's own output against it."""
-import itertools, os
+import itertools, json, os
 from lib.core import Case, GenError, write_if_changed, LEAN
-from lib import cbuild
+from lib import cbuild, core
 
 ID = "C09"
 LEAN_MODULES = ["AwsVerif.Props.C09"]
@@ -28,7 +28,9 @@ TRUSTED = ["translator gen/cfun.py + gen/arraylist_gen.py (stub functions cut fr
            "hand models lean/AwsVerif/Model/ArrayList.lean, LinkedList.lean (tied by this correspondence run only)",
            "harness/seqs.c ghost bookkeeping (which node is in which list; fatal-precondition skips)",
            "libc qsort sorts (sort is specified, not modelled: sorted permutation)"]
-ASSUMPTIONS = ["allocator returns fresh blocks and never fails (aws_mem_acquire aborts otherwise); requests above 64 KiB are not issued",
+ASSUMPTIONS = ["build configurations exercised: NDEBUG (theorems' model) and -DDEBUG_BUILD (poison fills reproduced by a driver overlay, "
+               "pre/post-conditions active); both under ASan/UBSan",
+               "allocator returns fresh blocks and never fails (aws_mem_acquire aborts otherwise); requests above 64 KiB are not issued",
                "API preconditions hold (item_size>0, swap indices < length, inserted nodes are detached, lists initialised, "
                "aliasing rules of copy/swap_contents/move_all)",
                "sort comparator is memcmp on whole elements (total order)"]
@@ -126,6 +128,7 @@ def parse_val(t, isz):
 
 class Lines:
     permissive = False
+    debug = False      # after `mode debug`: the library is the -DDEBUG_BUILD flavour (pre/post-conditions abort)
 
     def __init__(self, lines):
         self.l, self.i = lines, 0
@@ -359,7 +362,7 @@ def oracle_al(t, als, L, op):
         return
     elif name == "forged":
         flen = parse_size(t[2])
-        if flen < 2 ** 32:
+        if flen < 2 ** 32 or L.debug:
             if not skipped(True):
                 raise Bad(f"{op}: expected skip")
             return
@@ -459,6 +462,8 @@ def oracle_ll(t, r, L, op):
         _expect(L, "P ok", op)
     elif name == "swap_nodes":
         a, b = int(t[1][1:]), int(t[2][1:])
+        if a == b and skip_if(L.debug and r.where[a] is None):
+            return
         if a != b:
             if skip_if(r.where[a] is None or r.where[b] is None):
                 return
@@ -498,7 +503,7 @@ def oracle_ll(t, r, L, op):
         _expect(L, "P ok", op)
     elif name in ("empty", "front", "back"):
         j = int(t[1][1:])
-        if skip_if(r.lists[j] is None):
+        if skip_if(r.lists[j] is None or (L.debug and name != "empty" and not r.lists[j])):
             return
         l = r.lists[j]
         if name == "empty":
@@ -510,7 +515,7 @@ def oracle_ll(t, r, L, op):
         return
     elif name in ("next", "prev"):
         x = r.ref(t[1])
-        if skip_if(x is None):
+        if skip_if(x is None or (L.debug and ((x[0] == "t" and name == "next") or (x[0] == "h" and name == "prev")))):
             return
         kind, j, pos = x
         l = r.lists[j]
@@ -547,6 +552,9 @@ def oracle(case, lines):
                 oracle_al(t[1:], als, L, op)
             elif t[0] == "ll":
                 oracle_ll(t[1:], ll, L, op)
+            elif op == "mode debug":
+                _expect(L, "P mode debug", op)
+                L.debug = True
             else:
                 _expect(L, "bad-op", op)
         if L.peek() is not None:
@@ -560,8 +568,10 @@ def oracle(case, lines):
 class _Sink:
     """runs the reference alongside generation so that operands can be chosen around the current length"""
 
-    def __init__(self):
-        self.ops, self.als, self.ll, self.vk = [], [None] * 4, RefLL(), 0
+    def __init__(self, debug=False):
+        self.ops, self.als, self.ll, self.vk, self.debug = [], [None] * 4, RefLL(), 0, debug
+        if debug:
+            self.ops.append("mode debug")
 
     def fresh(self):
         self.vk += 1
@@ -572,6 +582,7 @@ def _sim_al(s, line):
     """apply to the generator's reference (approximate: skips treated as performed when legal)"""
     t = line.split(" ")[1:]
     L = _Permissive()
+    L.debug = s.debug
     try:
         oracle_al(t, s.als, L, line)
     except Bad:
@@ -609,9 +620,9 @@ def _idx(rng, n, isz):
     return rng.choice(["MAX", "MAX-1", "HALF", "HALF+1", str(q), str(q - 1), str(min(q + 1, MAXS)), str(q - 2), str(2 ** 32), str(2 ** 63)])
 
 
-def gen_al_case(rng, maxops):
+def gen_al_case(rng, maxops, debug=False):
     isz = rng.choice(ISZ_BOUNDARY) if rng.random() < 0.7 else rng.randint(1, 300)
-    s = _Sink()
+    s = _Sink(debug)
     if True:
         def init(k, size):
             if rng.random() < 0.3:
@@ -669,19 +680,21 @@ def gen_al_case(rng, maxops):
         for k in range(nl):
             s.ops.append(f"al dump l{k}")
         s.ops.append("al balance")
-    return Case(s.ops, {"kind": "al", "isz": isz})
+    return Case(s.ops, {"kind": "al", "isz": isz, "debug": debug})
 
 
 def _sim_ll(s, line):
+    L = _Permissive()
+    L.debug = s.debug
     try:
-        oracle_ll(line.split(" ")[1:], s.ll, _Permissive(), line)
+        oracle_ll(line.split(" ")[1:], s.ll, L, line)
     except Bad:
         pass
     s.ops.append(line)
 
 
-def gen_ll_case(rng, maxops):
-    s = _Sink()
+def gen_ll_case(rng, maxops, debug=False):
+    s = _Sink(debug)
     nl = rng.choice([2, 2, 3])
     for j in range(nl):
         _sim_ll(s, f"ll init L{j}")
@@ -742,7 +755,44 @@ def gen_ll_case(rng, maxops):
                                    f"ll insert_after L{j}.t n{rng.randrange(NNODES)}", f"ll pop_back L{j}"]))
         else:
             _sim_ll(s, f"ll init L{j}")
-    return Case(s.ops, {"kind": "ll"})
+    return Case(s.ops, {"kind": "ll", "debug": debug})
+
+
+def gen_pop_case(rng, debug=True):
+    """a list of 3..12 elements over exact-size static storage (canaries, ASan red zone right behind) or a dynamic block,
+    then pops of fewer / exactly / more than half of the elements, erase, clear, shrink, refills — the offsets and sizes
+    of the memmove / poison-fill code (the fills exist only with -DDEBUG_BUILD)"""
+    isz = rng.choice([1, 2, 3, 8, 17, 64, 127, 128, 129, 300]) if rng.random() < 0.8 else rng.randint(1, 300)
+    s = _Sink(debug)
+    n0 = rng.randint(3, 12)
+    if rng.random() < 0.5:
+        _sim_al(s, f"al init_static l0 {n0 + rng.choice([0, 0, 1, 3])} {isz}")
+    else:
+        _sim_al(s, f"al init_dyn l0 {rng.choice([0, n0, n0 + 1, 2 * n0])} {isz}")
+    for _ in range(n0):
+        _sim_al(s, f"al push_back l0 {s.fresh()}")
+    for _ in range(rng.randint(2, 8)):
+        r = s.als[0]
+        n = len(r.items)
+        x = rng.random()
+        if x < 0.3:
+            k = rng.choice([1, max(1, n // 2 - 1), n // 2, n // 2 + 1, max(n - 1, 0), n, n + 1, 0])
+            _sim_al(s, f"al pop_front_n l0 {k}")
+        elif x < 0.45:
+            _sim_al(s, "al pop_front l0")
+        elif x < 0.65:
+            _sim_al(s, f"al erase l0 {rng.choice([0, 0, 1, max(n - 1, 0), n // 2])}")
+        elif x < 0.72:
+            _sim_al(s, "al clear l0")
+        elif x < 0.8:
+            _sim_al(s, "al shrink l0")
+        elif x < 0.9:
+            _sim_al(s, f"al push_back l0 {s.fresh()}")
+        else:
+            _sim_al(s, f"al set l0 {n + rng.randint(0, 2)} {s.fresh()}")
+        s.ops.append("al dump l0")
+    s.ops.append("al balance")
+    return Case(s.ops, {"kind": "al", "isz": isz, "debug": debug})
 
 
 def gen_malformed(rng):
@@ -769,14 +819,14 @@ def _al_resolve(sym, s, k=0):
     return "al " + m[sym]
 
 
-def exhaustive_al(depth, init, isz, alpha=AL_ALPHA, sample=None, rng=None):
+def exhaustive_al(depth, init, isz, alpha=AL_ALPHA, sample=None, rng=None, debug=False):
     out = []
     if True:
         seqs = itertools.product(alpha, repeat=depth)
         if sample is not None:
             seqs = [tuple(rng.choice(alpha) for _ in range(depth)) for _ in range(sample)]
         for seq in seqs:
-            s = _Sink()
+            s = _Sink(debug)
             # descending keys so that sort has work to do
             s.vk = 40
             _sim_al(s, init.format(isz=isz))
@@ -785,7 +835,7 @@ def exhaustive_al(depth, init, isz, alpha=AL_ALPHA, sample=None, rng=None):
                 _sim_al(s, _al_resolve(sym, s))
                 s.ops.append("al dump l0")
             s.ops.append("al balance")
-            out.append(Case(s.ops, {"kind": "al", "isz": isz, "exhaustive": True}))
+            out.append(Case(s.ops, {"kind": "al", "isz": isz, "exhaustive": True, "debug": debug}))
     return out
 
 
@@ -810,18 +860,18 @@ def _ll_resolve(sym, s):
     return "ll " + m[sym]
 
 
-def exhaustive_ll(depth, prefix, sample=None, rng=None):
+def exhaustive_ll(depth, prefix, sample=None, rng=None, debug=False):
     out = []
     seqs = itertools.product(LL_ALPHA, repeat=depth)
     if sample is not None:
         seqs = [tuple(rng.choice(LL_ALPHA) for _ in range(depth)) for _ in range(sample)]
     for seq in seqs:
-        s = _Sink()
+        s = _Sink(debug)
         for line in ["ll init L0", "ll init L1"] + prefix:
             _sim_ll(s, line)
         for sym in seq:
             _sim_ll(s, _ll_resolve(sym, s))
-        out.append(Case(s.ops, {"kind": "ll", "exhaustive": True}))
+        out.append(Case(s.ops, {"kind": "ll", "exhaustive": True, "debug": debug}))
     return out
 
 
@@ -854,6 +904,71 @@ def gen_cases(rng, tier):
     return cases
 
 
+def debug_cases(rng, tier):
+    quick = tier == "quick"
+    cases = [gen_pop_case(rng) for _ in range(500 if quick else 8000)]
+    cases += [gen_al_case(rng, 35, debug=True) for _ in range(400 if quick else 6000)]
+    cases += [gen_ll_case(rng, 30, debug=True) for _ in range(300 if quick else 4000)]
+    for ini in AL_INITS:
+        cases += exhaustive_al(2 if quick else 3, ini, 2, debug=True)
+    for pre in LL_PREFIXES:
+        cases += exhaustive_ll(2 if quick else 3, pre, debug=True)
+    return cases
+
+
+def _mark_debug_replays(ctx, first):
+    """replays written by the debug-flavour stage must be replayed against the debug-flavour harness: move the op list
+    under `debug_ops` so that `check.py --replay` goes through `replay()` below"""
+    for name, text, path, no_input in ctx.violations[first:]:
+        try:
+            r = json.load(open(path))
+        except Exception:
+            continue
+        if "ops" in r:
+            r["debug_ops"] = r.pop("ops")
+            if r["debug_ops"][:1] != ["mode debug"]:     # the minimiser may drop it (the harness does not need it, the model does)
+                r["debug_ops"].insert(0, "mode debug")
+        r["flavour"] = "debug (-DDEBUG_BUILD library and inline headers, ASan/UBSan)"
+        with open(path, "w") as f:
+            json.dump(r, f, indent=1)
+
+
+def _debug_exe(ctx):
+    try:
+        return cbuild.build_harness(**dict(HARNESS, flavour="debug"))
+    except cbuild.BuildError as e:
+        ctx.machinery_broken("debug-flavour build: " + str(e)[:2000])
+        return None
+
+
+def extra_stages(ctx):
+    """second configuration: library and inline headers compiled with -DDEBUG_BUILD (cbuild flavour `debug`): the DEBUG-only
+    poison fills of array_list.inl/.c run, AWS_PRECONDITION / AWS_POSTCONDITION abort.  Same op language, same model
+    (Driver/Seqs.lean reproduces the fills after `mode debug`), same oracle, ASan + canaries around static storage."""
+    exe = _debug_exe(ctx)
+    if exe is None:
+        return
+    cases = debug_cases(ctx.rng, ctx.tier)
+    keep = ctx.cov.get("distribution")
+    first = len(ctx.violations)
+    res = core.correspondence_stage(ctx, cases, exe)
+    if res is not None:
+        ctx.cov["debug_build_distribution"] = ctx.cov.get("distribution")
+    if keep is not None:
+        ctx.cov["distribution"] = keep
+    ctx.cov["debug_build_cases"] = len(cases)
+    _mark_debug_replays(ctx, first)
+
+
+def replay(ctx, r):
+    if "debug_ops" not in r:
+        print(json.dumps(r, indent=1)[:3000])
+        return
+    exe = _debug_exe(ctx)
+    if exe is not None:
+        core.correspondence_stage(ctx, [Case(r["debug_ops"], r.get("tags"))], exe)
+
+
 MUTATING = ("push", "pop", "set", "erase", "swap", "sort", "clear", "shrink", "copy", "insert", "remove", "move")
 
 
@@ -865,6 +980,8 @@ def distribution(cases, c_out):
     d = {"al_cases": 0, "ll_cases": 0, "malformed_cases": 0, "exhaustive_cases": 0, "ops": {}, "item_size": {}, "rc": {}, "skips": 0}
     for i, c in enumerate(cases):
         d[c.tags.get("kind", "al") + "_cases"] += 1
+        if c.tags.get("debug"):
+            d["debug_flavour_cases"] = d.get("debug_flavour_cases", 0) + 1
         if c.tags.get("exhaustive"):
             d["exhaustive_cases"] += 1
         if "isz" in c.tags:
